@@ -187,6 +187,8 @@ func init() {
 	props["C38"].Also = []string{"w6"}
 	props["C38"].Real = append(props["C38"].Real, "40% of the runs: world w6 (the watcher inside the real Core: file rewrites 0 ms..2.5 s apart, the configuration in force 5 s after the last write must be the file's; conf.Load, Core.run, reloadConf real; socket-owning components are recording stand-ins)")
 	props["C38"].LevelNote = strings.Replace(props["C38"].LevelNote, "Core's reaction is modelled by the consumer (level 2, the watcher inside Core, is not built)", "in world w2a Core's reaction is modelled by the consumer; level 2, the watcher inside the real Core, runs in world w6 with complete (never torn) file contents", 1)
+	props["C33"].Also = []string{"s3"}
+	props["C33"].Real = append(props["C33"].Real, "40% of the runs: world s3 (internal/servers/moq.inboundTrack.push, the place where the MoQ server uses the reorderer and hands the subgroups on to the path: one goroutine per received group, as the server has one per QUIC stream, under the seeded scheduler; the order in which the consumer is entered must be strictly increasing)")
 	props["C18"].Also = []string{"w5"}
 	props["C18"].Real = append(props["C18"].Real, "40% of the runs: world w5 (real HLS sessions as readers of a path whose publisher reconnects while sessions are being set up: every session alive in the quiet period after the run must be among the readers of its path)")
 	props["C18"].LevelNote = strings.Replace(props["C18"].LevelNote, "the per-protocol session code is not covered", "of the per-protocol session code, what Close() of an HLS session does (w5) is covered; the other protocols' sessions are not", 1)
